@@ -26,6 +26,8 @@ def group_runs(g, tier):
             W('mem', 'random', names='prefix', walks=20 if q else 500, length=40),
             W('mem', 'random', names='rnd', walks=10 if q else 300, length=40), W('mem', 'random', names='rnd', lts='deep', walks=8 if q else 300, length=40),
             W('phys', 'random', names='rnd', walks=6 if q else 200, length=40),
+            # the transfers (native fast paths of PhysicalFS: copy, rename) with every kind of source and destination
+            W('phys', 'edges', frac=0.04 if q else 1.0, ops='copy_file,move_file,copy_dir,move_dir'), W('phys', 'edges', lts='deep', frac=0.04 if q else 1.0, names='prefix2', ops='copy_file,move_file,copy_dir,move_dir'),
             W('mem', 'edges', lts='chain', frac=0.25 if q else 1.0), W('phys', 'edges', lts='chain', frac=0.1 if q else 1.0, names='dotted'),
             W('mem', 'edges', lts='wide', frac=0.03 if q else 1.0, names='prefix2'), W('phys', 'random', lts='wide', walks=6 if q else 300, length=40, names='multi'),
             W('mem', 'random', names='prefix2', walks=12 if q else 400, length=40), W('mem', 'random', names='nearwo', walks=6 if q else 200, length=40), W('mem', 'random', lts='deep', names='prefix2', walks=8 if q else 300, length=40),
@@ -54,6 +56,7 @@ def group_runs(g, tier):
             W('alt(zr/zs,phys)', 'random', names='dotted', walks=8 if q else 300, length=40),
             W('alt(/,mem)', 'random', walks=10 if q else 300, length=40),
             W('alt(zr/zs/zt,mem)', 'random', names='prefix', walks=10 if q else 300, length=40),
+            W('alt(zr,phys)', 'edges', frac=0.03 if q else 1.0, ops='copy_file,move_file,copy_dir,move_dir'),
             W('alt(zr/zs,mem)', 'edges', lts='chain', frac=0.15 if q else 1.0), W('alt(zr,phys)', 'random', lts='chain', walks=5 if q else 200, length=40),
             W('alt(zr,mem)', 'random', lts='wide', walks=6 if q else 300, length=40),
             W('alt(zr,mem)', 'random', names='prefix2', walks=8 if q else 300, length=40), W('alt(zr/zs,mem)', 'random', names='rnd', walks=8 if q else 300, length=40),
@@ -138,7 +141,7 @@ def group_runs(g, tier):
         return [
             W('async:mem', 'edges', frac=0.04 if q else 1.0), W('async:mem', 'random', names='prefix', walks=15 * k, length=40), W('async:mem', 'random', names='prefix2', walks=10 * k, length=40), W('async:ovl(mem,mem)', 'random', names='nearwo', walks=8 * k, length=40, split=True), W('async:mem', 'edges', lts='chain', frac=0.2 if q else 1.0),
             W('async:ovl(mem,mem)', 'random', lts='chain', walks=6 * k, length=40), W('async:mem', 'random', lts='wide', walks=6 * k, length=40), W('async:mem', 'random', names='rnd', walks=8 * k, length=40),
-            W('async:phys', 'edges', frac=0.015 if q else 0.5), W('async:phys', 'random', names='multi', b=8193, walks=6 * k, length=30),
+            W('async:phys', 'edges', frac=0.015 if q else 0.5), W('async:phys', 'edges', frac=0.03 if q else 1.0, ops='copy_file,move_file,copy_dir,move_dir'), W('async:phys', 'random', names='multi', b=8193, walks=6 * k, length=30),
             W('async:alt(zr,mem)', 'random', names='dotted', walks=12 * k, length=40), W('async:alt(zr/zs,phys)', 'random', walks=6 * k, length=30),
             W('async:ovl(mem,mem)', 'edges', frac=0.02 if q else 0.5), W('async:ovl(mem,mem)', 'random', walks=15 * k, length=40, lts='deep'),
             W('async:ovl(mem,mem,mem)', 'random', walks=8 * k, length=40), W('async:ovl(phys,phys)', 'random', walks=5 * k, length=30),
